@@ -121,6 +121,12 @@ func (fan *HwMonFan) AttachFanRpmCurveData(curveData *map[int]float64) (err erro
 
 	fan.FanCurveData = curveData
 
+	// a start PWM derived from previously attached data is not a user override:
+	// forget it, otherwise ComputePwmBoundaries would keep it for the new data
+	if fan.Config.StartPwm == nil {
+		fan.StartPwm = nil
+	}
+
 	startPwm, maxPwm := ComputePwmBoundaries(fan)
 	fan.SetStartPwm(startPwm, false)
 	fan.SetMaxPwm(maxPwm, false)
